@@ -219,8 +219,9 @@ def current_x(lf, X):
 
 def roundtrip(rep, dec, lk, lf, n, cells, xs, loc):
     for with_val in (True, False):
-        for num in list(range(1, n + 1)) + [n + 1, 9]:
-            sym = 'decode(encode[len=%d]) num=%d%s' % (n, num, '' if with_val else ' val=NULL')
+        # stated lengths far above the sequence as well: a length narrowed to 8 / 16 / 32 bits on the way would wrap to a small value
+        for num in list(range(1, n + 1)) + [n + 1, 9, 2 ** 8, 2 ** 16 + 1, 2 ** 32, 2 ** 32 + n - 1, 2 ** 64 - 1]:
+            sym = 'decode(encode[len=%d]) num=%s%s' % (n, num if num < 256 else hex(num), '' if with_val else ' val=NULL')
             try:
                 dom = bit.Bit()
                 it = symx.Interp(dom, lk)
